@@ -376,6 +376,12 @@ pub fn c09_big_case(rng: &mut Rng, st: &mut Stats) -> CaseOutcome {
 // ------------------------------------------------------------------------------------------------
 
 pub fn c11_big_case(rng: &mut Rng, st: &mut Stats) -> CaseOutcome {
+    if rng.chance(1, 12) {
+        // previews across 2^16 tokens
+        st.count("cases_with_more_than_65536_tokens_to_preview");
+        let ns = [65_535usize, 65_536, 65_537, 70_000];
+        return c11_preview_case(rng, st, &ns, 90_000, 100_000);
+    }
     let ns = [15usize, 16, 17, 31, 32, 33, 64, 255, 256, 257, 1_000, 4_096, 20_000];
     c11_preview_case(rng, st, &ns, 600, 12_000)
 }
